@@ -22,7 +22,13 @@ RULE = ("One evaluation = one seeded execution of two real clients (real "
         "reconnects and replays. Non-trivial: at least one tamper operation "
         "hit a message that the target had not processed yet. Distinct: "
         "event-log digests among non-trivial runs.")
-LEVEL_TEXT = ("Seeded exploration of tamper positions and operations. Ledger: "
+LEVEL_TEXT = ("Fault enumeration: every tamper operation of the sweep table "
+              "(bit flips, truncation, extension, drop, duplicate, side and "
+              "phase re-labelling incl. non-ASCII look-alike labels, cross-"
+              "phase replay, reflection, fabricated bodies and PAKE bodies) "
+              "at each of the first 8 `message` events sent to each client "
+              "of a fixed honest exchange, plus seeded exploration of "
+              "combined operations under reconnects. Ledger: "
               "every delivered application message list must be a prefix of "
               "what the peer passed to send_message (exact bytes, no repeats); "
               "delivered versions must equal the peer's app_versions; a "
@@ -54,6 +60,7 @@ SWEEP_OPS = (
     [("reflect", j) for j in range(4)] +
     [("reflect_as", j, v) for j in range(3) for v in range(3)] +
     [("relabel_replay", j, v) for j in range(3) for v in range(4)] +
+    [("early_relabel", j, v) for j in (1, 2, 3) for v in range(5)] +
     [("inject_body", p) for p in ("0", "1", "version")] +
     [("inject_pake", j) for j in range(3)])
 
@@ -79,6 +86,8 @@ def sweep(tier):
         for target in ("A", "B"):
             for k in range(8):
                 for op in SWEEP_OPS:
+                    if op[0] == "early_relabel" and k:
+                        continue    # position-independent
                     out.append({"spake": "real", "sweep": {
                         "target": target, "k": k, "op": list(op),
                         "sched": sched}})
@@ -108,11 +117,40 @@ def run_sweep_case(seed, tape, opts):
     def other_side(c):
         return (b if c is a else a).side
 
+    forbidden = set()      # phases whose only copy reached the target under
+    #                        a changed label: they must never be delivered
+    early = {"held": None, "n": 0, "done": False}
+
+    def tamper_early(m):
+        # withhold the peer's pake; the next j peer messages arrive first,
+        # under another side label; then the pake is released
+        d = json.loads(m[1:].decode())
+        if d["side"] != other_side(target) or early["done"]:
+            return m
+        if d["phase"] == "pake" and early["held"] is None:
+            early["held"] = m
+            sim.ev("tamper", target.name, "withhold_pake")
+            return None
+        if early["held"] is None:
+            return m
+        forbidden.add(d["phase"])
+        d["side"] = side_variant(other_side(target), op[2])
+        early["n"] += 1
+        fired.append((early["n"], "early_relabel", d["phase"]))
+        sim.note("fault.mbox_tamper.sweep_early_relabel")
+        out = [b"M" + json.dumps(d).encode()]
+        if early["n"] >= op[1]:
+            early["done"] = True
+            out.append(early["held"])
+        return out
+
     def tamper(end, m):
         # server -> client direction only, `message` events to the target
         if end.role != "c" or end.link.owner is not target or \
                 _msg_type(m) != "message":
             return m
+        if op[0] == "early_relabel":
+            return tamper_early(m)
         k = count["n"]
         count["n"] += 1
         if k != sw["k"]:
@@ -142,12 +180,18 @@ def run_sweep_case(seed, tape, opts):
         elif kind == "dup":
             out = [m, m]
         elif kind == "side_to_peer":
+            if d["side"] != other_side(target):
+                pass       # (an own echo re-labelled as the peer's)
             d["side"] = other_side(target)
         elif kind == "side_to_own":
+            if d["side"] == other_side(target):
+                forbidden.add(d["phase"])
             d["side"] = target.side
         elif kind == "phase_set":
             if d["phase"] == op[1]:
                 return m
+            if d["side"] == other_side(target):
+                forbidden.add(d["phase"])
             d["phase"] = op[1]
         elif kind == "cross_phase":
             srcs = [x for x in stored
@@ -231,6 +275,24 @@ def run_sweep_case(seed, tape, opts):
                         "for exactly that phase; never manipulated content, "
                         "never a phase twice",
                  detail=v["detail"] + " | sweep: %r fired %r" % (sw, fired))
+    if not v and forbidden and not w.faults_fired:
+        # the only copy of these phases reached the target under a changed
+        # label (no reconnect, so the server sent each message once): the
+        # client may ignore it or close with an error, not act on it
+        acted = []
+        for ph in sorted(forbidden):
+            if ph == "version" and target.has("versions"):
+                acted.append("version -> versions")
+            elif ph.isdigit() and len(target.received) > int(ph):
+                acted.append("phase %s -> message %r" %
+                             (ph, target.received[int(ph)][:20]))
+        if acted:
+            v = {"key": "C02.relabelled_accepted",
+                 "clause": "re-labelling phase or side: the client ignores "
+                           "the message or closes with an error",
+                 "detail": "%s acted on re-labelled message(s): %s | sweep: "
+                           "%r fired %r" % (target.name, "; ".join(acted), sw,
+                                            fired)}
     return ca.result(sim, w, v, bool(fired), seed,
                      extra_sample={"sweep": sw, "fired": fired})
 
